@@ -116,7 +116,7 @@ class Volume:
 class Surface:
     """One side of a disc with one file system."""
 
-    def __init__(self, variant, tracks, spt, volumes, img_id=1, side=0, fill_seed=0, overrides=None, post=None):
+    def __init__(self, variant, tracks, spt, volumes, img_id=1, side=0, fill_seed=0, overrides=None, post=None, unused=None):
         self.variant = variant   # 'acorn' | 'watford' | 'opus'
         self.tracks = tracks
         self.spt = spt
@@ -126,6 +126,8 @@ class Surface:
         self.fill_seed = fill_seed
         self.overrides = overrides or {}   # lba(str) -> 256 bytes, applied after tagging (before catalogue)
         self.post = post or {}             # byte offset(str) -> [and_mask, or_mask], applied last (hostile catalogue bits)
+        self.unused = unused               # None: every sector carries its tag; a byte value: sectors belonging to no file
+                                           # and no catalogue hold that byte throughout, as on a freshly formatted disc
 
     @property
     def nsectors(self):
@@ -133,12 +135,12 @@ class Surface:
 
     def to_json(self):
         return {'variant': self.variant, 'tracks': self.tracks, 'spt': self.spt, 'volumes': [v.to_json() for v in self.volumes],
-                'img_id': self.img_id, 'side': self.side, 'fill_seed': self.fill_seed, 'overrides': self.overrides, 'post': self.post}
+                'img_id': self.img_id, 'side': self.side, 'fill_seed': self.fill_seed, 'overrides': self.overrides, 'post': self.post, 'unused': self.unused}
 
     @classmethod
     def from_json(cls, d):
         return cls(d['variant'], d['tracks'], d['spt'], [Volume.from_json(v) for v in d['volumes']], d['img_id'], d['side'],
-                   d['fill_seed'], d.get('overrides'), d.get('post'))
+                   d['fill_seed'], d.get('overrides'), d.get('post'), d.get('unused'))
 
     def render(self):
         n = self.nsectors
@@ -148,6 +150,16 @@ class Surface:
         buf = bytearray()
         for lba in range(n):
             buf += tag_sector(self.img_id, self.side, lba, self.fill_seed)
+        if self.unused is not None:
+            used = bytearray(n)
+            for v in self.volumes:
+                for f in v.files:
+                    for lba in range(v.origin + f.start, min(n, v.origin + f.start + f.nsectors())):
+                        used[lba] = 1
+            blank = bytes([self.unused & 0xFF]) * 256
+            for lba in range(n):
+                if not used[lba]:
+                    buf[lba * 256:(lba + 1) * 256] = blank
         for k, v in self.overrides.items():
             lba = int(k)
             buf[lba * 256:lba * 256 + len(v)] = v
@@ -346,6 +358,15 @@ def gen_volume(rng, label, total, first_free, maxfiles, origin=0, cat_at=0, nfil
 
 
 def gen_surface(rng, variant=None, img_id=1, side=0, geom=None, density=None):
+    s = _gen_surface(rng, variant, img_id, side, geom, density)
+    if rng.chance(0.3):
+        # unused space as a formatter leaves it (zeros or the 0xE5 filler) rather than tagged: the geometry probing
+        # rules look at sectors where the *other* candidate layouts would keep a catalogue, and what lies there matters
+        s.unused = rng.choice([0x00, 0x00, 0xE5])
+    return s
+
+
+def _gen_surface(rng, variant=None, img_id=1, side=0, geom=None, density=None):
     variant = variant or rng.weighted([(5, 'acorn'), (3, 'watford'), (3, 'opus')])
     if variant == 'opus':
         tracks = geom[0] if geom else rng.weighted([(4, 40), (3, 80), (2, 35)])
